@@ -59,7 +59,7 @@ static void run_trace_header(int argc, char **argv) {
     }
     if (conf_mem) { conf.mem_alloc = vf_conf_malloc; conf.mem_calloc = vf_conf_calloc; conf.mem_free = vf_conf_free; }
     vf_set_plan(argc > 8 && !strncmp(argv[8], "plan=", 5) ? argv[8] + 5 : "");
-    enum cc_stat s = (dflt && !conf_mem) ? cc_pqueue_new(&pq, cmp) : cc_pqueue_new_conf(&conf, &pq);
+    enum cc_stat s = VF_OUT(pq, (dflt && !conf_mem) ? cc_pqueue_new(&pq, cmp) : cc_pqueue_new_conf(&conf, &pq));
     printf("new %s", vf_stat(s));
     if (s == CC_OK) { obs(); buf(); } else { pq = NULL; printf(" |"); vf_ledger(); }
 }
